@@ -4,7 +4,7 @@
 namespace FaxVerif.Generated.C13Tables
 
 /-- `_known_binary_operators`: Python AST class name ↦ C++ operator text -/
-def binaryOps : List (String × String) := [("Add", "+"), ("Div", "/"), ("Mod", "%%"), ("Mult", "*"), ("Sub", "-")]
+def binaryOps : List (String × String) := [("Add", "+"), ("Div", "/"), ("Mod", "%"), ("Mult", "*"), ("Sub", "-")]
 
 /-- `_known_unary_operators` -/
 def unaryOps : List (String × String) := [("Not", "!"), ("UAdd", "+"), ("USub", "-")]
